@@ -1,13 +1,11 @@
-\* random histories of 3 calls for the replay (simulation, seeded); the whole history is emitted with the model's results
+\* random histories of 3 calls for the replay (simulation, seeded); the whole history is emitted with the model's results;
+\* the clauses that need the containing elements of every successor are left to the exhaustive runs
 SPECIFICATION SimSpec
 CONSTANTS
   MaxCalls = 3
   MemoAlways = FALSE
   TopoIds = {"line3", "line4r", "line2s", "line4m", "rect32", "rect32r", "rect33m"}
-  NTargetSets = 5
+  NTargetSets = 4
 INVARIANT ImageOK
-INVARIANT PickedContains
-INVARIANT OutsideRaises
-INVARIANT InsideLocated
 INVARIANT MemoSound
 CHECK_DEADLOCK FALSE
